@@ -60,13 +60,19 @@ class Tr:
     """Translate one FunctionDef to IR."""
 
     def __init__(self, mod: Module, fdef, name, argtypes, consts, self_type=None, const_args=None, methods=None,
-                 ret=None):
+                 ret=None, events=None, opaque_calls=None, skip_assign=(), membership=None):
         self.mod, self.f, self.name = mod, fdef, name
         self.consts = consts
         self.const_args = const_args or {}    # arg name -> python constant (specialisation, e.g. state='folded')
         self.methods = methods or {}          # (rectype name, method) -> func key
         self.env = {}
         self.params = []
+        # ---- "event" mode: X.determinants['kind'].append(Determinant(obj, v)) becomes an emitted (owner, kind, partner, value) tuple
+        self.events = events            # {'objects': {argname: index}} or None
+        self.opaque_calls = opaque_calls or {}     # dotted call name -> parameter name (the call result becomes a parameter)
+        self.skip_assign = set(skip_assign)        # names whose assignment is dropped (they are parameters)
+        self.membership = membership or {}         # (attr, container attr) -> field name holding the membership boolean
+        self.end_return = None
         args = [a.arg for a in fdef.args.args]
         for a in args:
             if a in self.const_args:
@@ -83,6 +89,8 @@ class Tr:
                 self.env[a] = t
                 self.params.append((a, t))
         self.ret_hint = ret
+        if self.events is not None:
+            self.env["ev__"] = ("list", ("tup", ["F", "F", "F", "F"]))
 
     # ---- expressions: returns (ir, type)
     def expr(self, e):
@@ -97,6 +105,8 @@ class Tr:
             if isinstance(v, str):
                 return ("str", v), "S"
             raise Untranslatable(ast.dump(e))
+        if isinstance(e, ast.Name) and self.events is not None and e.id in self.events["objects"] and getattr(self, "_as_value", False):
+            return ("lit", Fr(self.events["objects"][e.id])), "F"
         if isinstance(e, ast.Name):
             if e.id in self.const_args:
                 return self.expr(ast.Constant(self.const_args[e.id]))
@@ -156,6 +166,14 @@ class Tr:
                 self.need(tb, "F", e)
                 return ("bin", BIN[type(e.op)], a, b), "F"
             raise Untranslatable(ast.dump(e))
+        if isinstance(e, ast.Compare) and len(e.ops) == 1 and isinstance(e.ops[0], (ast.In, ast.NotIn)) \
+                and isinstance(e.left, ast.Attribute) and isinstance(e.comparators[0], ast.Attribute):
+            key = (e.left.attr, e.comparators[0].attr)
+            if key in self.membership:
+                v, t = self.expr(ast.Attribute(value=e.left.value, attr=self.membership[key], ctx=ast.Load()))
+                self.need(t, "B", e)
+                return (v if isinstance(e.ops[0], ast.In) else ("not", v)), "B"
+            raise Untranslatable(f"{self.name}: membership test {ast.dump(e)[:160]}")
         if isinstance(e, ast.Compare) and len(e.ops) == 1:
             op = e.ops[0]
             a, ta = self.expr(e.left)
@@ -185,6 +203,16 @@ class Tr:
                 else:
                     r = ("and" if isand else "or", r, v)
             return r, "B"
+        if isinstance(e, ast.List) and self.events is not None and len(e.elts) == 2 and isinstance(e.elts[0], ast.Name) \
+                and e.elts[0].id in self.events["objects"]:
+            self._as_value = True
+            try:
+                a, ta = self.expr(e.elts[0])
+            finally:
+                self._as_value = False
+            b, tb = self.expr(e.elts[1])
+            self.need(tb, "F", e)
+            return ("tuple", [a, b]), ("tup", ["F", "F"])
         if isinstance(e, ast.Tuple) or isinstance(e, ast.List):
             vals = [self.expr(v) for v in e.elts]
             return ("tuple", [v for v, _ in vals]), ("tup", [t for _, t in vals])
@@ -223,9 +251,33 @@ class Tr:
         if t != want:
             raise Untranslatable(f"{self.name}: expected {want}, got {t} in {ast.dump(node)[:160]}")
 
+    def dotted(self, f):
+        if isinstance(f, ast.Name):
+            return f.id
+        if isinstance(f, ast.Attribute):
+            b = self.dotted(f.value)
+            return None if b is None else b + "." + f.attr
+        return None
+
     def call(self, e):
         f = e.func
         args = e.args
+        dn = self.dotted(f)
+        if dn in self.opaque_calls:
+            nm = self.opaque_calls[dn]
+            if nm not in self.env:
+                raise Untranslatable(f"{self.name}: opaque call {dn} has no declared parameter {nm}")
+            return ("var", nm), self.env[nm]
+        if isinstance(f, ast.Name) and f.id == "Determinant" and self.events is not None and len(args) == 2:
+            self._as_value = True
+            try:
+                a, ta = self.expr(args[0])
+            finally:
+                self._as_value = False
+            b, tb = self.expr(args[1])
+            self.need(ta, "F", e)
+            self.need(tb, "F", e)
+            return ("tuple", [a, b]), ("tup", ["F", "F"])
         if isinstance(f, ast.Name):
             if f.id == "abs" and len(args) == 1 and not e.keywords:
                 v, t = self.expr(args[0])
@@ -304,6 +356,13 @@ class Tr:
                 names += self.assigned(s.body) + self.assigned(s.orelse)
             elif isinstance(s, ast.For):
                 names += self.assigned(s.body)
+            if isinstance(s, (ast.Assign, ast.AugAssign)):
+                for t in (s.targets if isinstance(s, ast.Assign) else [s.target]):
+                    if isinstance(t, ast.Subscript) and isinstance(t.value, ast.Name):
+                        names.append(t.value.id)
+            if self.is_event(s):
+                names.append("ev__")
+            names = [n for n in names if n not in self.skip_assign]
             for n in names:
                 if n not in out:
                     out.append(n)
@@ -321,6 +380,74 @@ class Tr:
             elif isinstance(s, ast.If):
                 out |= self.definitely(s.body) & self.definitely(s.orelse)
         return out
+
+    def is_event(self, s):
+        """X.determinants['kind'].append(d)"""
+        if self.events is None or not (isinstance(s, ast.Expr) and isinstance(s.value, ast.Call)):
+            return False
+        f = s.value.func
+        return (isinstance(f, ast.Attribute) and f.attr == "append" and isinstance(f.value, ast.Subscript)
+                and isinstance(f.value.value, ast.Attribute) and f.value.value.attr == "determinants"
+                and isinstance(f.value.value.value, ast.Name) and f.value.value.value.id in self.events["objects"]
+                and isinstance(f.value.slice, ast.Constant) and len(s.value.args) == 1)
+
+    def reads(self, stmts):
+        """names possibly read by the statements (over-approximation)"""
+        out = set()
+        for s in stmts:
+            for n in ast.walk(s):
+                if isinstance(n, ast.Name) and isinstance(n.ctx, ast.Load):
+                    out.add(n.id)
+                if isinstance(n, ast.AugAssign) and isinstance(n.target, ast.Name):
+                    out.add(n.target.id)
+                if isinstance(n, (ast.Assign, ast.AugAssign)):
+                    for t in (n.targets if isinstance(n, ast.Assign) else [n.target]):
+                        if isinstance(t, ast.Subscript) and isinstance(t.value, ast.Name):
+                            out.add(t.value.id)
+            if self.events is not None and any(self.is_event(x) for x in ast.walk(s) if isinstance(x, ast.Expr)):
+                out.add("ev__")
+        return out
+
+    def uses_defs(self, s):
+        """(names read, names definitely written) by one simple statement"""
+        uses, defs = set(), set()
+        if isinstance(s, ast.Assign):
+            uses |= {n.id for n in ast.walk(s.value) if isinstance(n, ast.Name)}
+            for t in s.targets:
+                if isinstance(t, ast.Name):
+                    defs.add(t.id)
+                elif isinstance(t, (ast.Tuple, ast.List)):
+                    defs |= {x.id for x in t.elts if isinstance(x, ast.Name)}
+                elif isinstance(t, ast.Subscript) and isinstance(t.value, ast.Name):
+                    uses.add(t.value.id)
+        elif isinstance(s, ast.AugAssign):
+            uses |= {n.id for n in ast.walk(s.value) if isinstance(n, ast.Name)}
+            if isinstance(s.target, ast.Name):
+                uses.add(s.target.id)
+            elif isinstance(s.target, ast.Subscript) and isinstance(s.target.value, ast.Name):
+                uses.add(s.target.value.id)
+        else:
+            uses |= {n.id for n in ast.walk(s) if isinstance(n, ast.Name) and isinstance(n.ctx, ast.Load)}
+            if self.is_event(s):
+                uses.add("ev__")
+        return uses, defs
+
+    def live_in(self, stmts, live_out):
+        """variables live before the statements, given those live after them"""
+        live = set(live_out)
+        for s in reversed(stmts):
+            if isinstance(s, ast.If):
+                live = ({n.id for n in ast.walk(s.test) if isinstance(n, ast.Name)}
+                        | self.live_in(s.body, live) | self.live_in(s.orelse, live))
+            elif isinstance(s, ast.For):
+                body_live = self.live_in(s.body, live | self.reads(s.body))
+                live = live | body_live | {n.id for n in ast.walk(s.iter) if isinstance(n, ast.Name)}
+            elif isinstance(s, ast.Return):
+                live = {n.id for n in ast.walk(s) if isinstance(n, ast.Name)}
+            else:
+                u, d = self.uses_defs(s)
+                live = (live - d) | u
+        return live
 
     def returns(self, stmts):
         if not stmts:
@@ -345,15 +472,52 @@ class Tr:
             return True
         return False
 
-    def block(self, stmts, k):
+    def block(self, stmts, k, live=frozenset()):
         """IR of statements followed by continuation k (a function env -> (ir, type)) or None."""
         if not stmts:
             if k is None:
+                if self.end_return:
+                    vals = [self.expr(ast.Name(id=v, ctx=ast.Load())) for v in self.end_return]
+                    if len(vals) == 1:
+                        return vals[0]
+                    return ("tuple", [x for x, _ in vals]), ("tup", [t for _, t in vals])
                 raise Untranslatable(f"{self.name}: fell off the end without return")
             return k()
         s, rest = stmts[0], stmts[1:]
         if self.skip(s):
-            return self.block(rest, k)
+            return self.block(rest, k, live)
+        if isinstance(s, ast.Assign) and len(s.targets) == 1 and isinstance(s.targets[0], ast.Name) and s.targets[0].id in self.skip_assign:
+            return self.block(rest, k, live)
+        if self.is_event(s):
+            f = s.value.func
+            owner = self.events["objects"][f.value.value.value.id]
+            kind = {"sidechain": 0, "backbone": 1, "coulomb": 2}.get(f.value.slice.value)
+            if kind is None:
+                raise Untranslatable(f"{self.name}: determinant kind {f.value.slice.value!r}")
+            d, td = self.expr(s.value.args[0])
+            if td != ("tup", ["F", "F"]):
+                raise Untranslatable(f"{self.name}: appended value is not a determinant: {td}")
+            ev = ("tuple", [("lit", Fr(owner)), ("lit", Fr(kind)), ("proj", 0, 2, d), ("proj", 1, 2, d)])
+            b, tb = self.block(rest, k, live)
+            return ("let", ["ev__"], ("snoc", ("var", "ev__"), ev), b), tb
+        if isinstance(s, (ast.Assign, ast.AugAssign)) and isinstance((s.targets[0] if isinstance(s, ast.Assign) else s.target), ast.Subscript):
+            tgt = s.targets[0] if isinstance(s, ast.Assign) else s.target
+            if isinstance(tgt.value, ast.Name) and isinstance(tgt.slice, ast.Constant) and isinstance(tgt.slice.value, int) \
+                    and isinstance(self.env.get(tgt.value.id), tuple) and self.env[tgt.value.id][0] == "tup":
+                nm, i = tgt.value.id, tgt.slice.value
+                tt = self.env[nm][1]
+                if isinstance(s, ast.AugAssign):
+                    if type(s.op) not in BIN:
+                        raise Untranslatable(f"{self.name}: augmented store {ast.dump(s)[:120]}")
+                    val = ast.BinOp(left=ast.Subscript(value=ast.Name(id=nm, ctx=ast.Load()), slice=ast.Constant(i), ctx=ast.Load()), op=s.op, right=s.value)
+                else:
+                    val = s.value
+                v, tv = self.expr(val)
+                self.need(tv, tt[i], s)
+                parts = [v if j == i else ("proj", j, len(tt), ("var", nm)) for j in range(len(tt))]
+                b, tb = self.block(rest, k, live)
+                return ("let", [nm], ("tuple", parts), b), tb
+            raise Untranslatable(f"{self.name}: subscript store {ast.dump(tgt)[:120]}")
         if isinstance(s, ast.Return):
             return self.expr(s.value)
         if isinstance(s, ast.AnnAssign) and s.value is not None and isinstance(s.target, ast.Name):
@@ -366,7 +530,7 @@ class Tr:
                     raise Untranslatable(f"{self.name}: string/None variable {tgt.id}")
                 saved = dict(self.env)
                 self.env[tgt.id] = t
-                b, tb = self.block(rest, k)
+                b, tb = self.block(rest, k, live)
                 self.env = saved
                 return ("let", [tgt.id], v, b), tb
             if isinstance(tgt, (ast.Tuple, ast.List)) and all(isinstance(x, ast.Name) for x in tgt.elts) \
@@ -376,30 +540,32 @@ class Tr:
                 for x, tt in zip(tgt.elts, t[1]):
                     self.env[x.id] = tt
                     names.append(x.id)
-                b, tb = self.block(rest, k)
+                b, tb = self.block(rest, k, live)
                 self.env = saved
                 return ("let", names, v, b), tb
             raise Untranslatable(f"{self.name}: assignment target {ast.dump(tgt)[:120]}")
         if isinstance(s, ast.AugAssign) and isinstance(s.target, ast.Name) and type(s.op) in BIN:
             new = ast.Assign(targets=[s.target], value=ast.BinOp(left=ast.Name(id=s.target.id, ctx=ast.Load()),
                                                                  op=s.op, right=s.value))
-            return self.block([new] + rest, k)
+            return self.block([new] + rest, k, live)
         if isinstance(s, ast.If):
             c, tc = self.expr(s.test)
+            if tc == "F":               # truthiness of a number
+                c, tc = ("cmp", "ne", c, ("lit", Fr(0))), "B"
             self.need(tc, "B", s)
             if c[0] == "bool":       # constant-folded test (specialised argument)
-                return self.block((s.body if c[1] else s.orelse) + rest, k)
+                return self.block((s.body if c[1] else s.orelse) + rest, k, live)
             if self.returns(s.body) and (not s.orelse or self.returns(s.orelse)):
                 a, ta = self.block(s.body, None)
-                b, tb = self.block(s.orelse, None) if s.orelse else self.block(rest, k)
+                b, tb = self.block(s.orelse, None) if s.orelse else self.block(rest, k, live)
                 return ("if", c, a, b), ta
             if self.returns(s.body) or (s.orelse and self.returns(s.orelse)):
                 # one branch returns, the other continues
                 if self.returns(s.body):
                     a, ta = self.block(s.body, None)
-                    b, tb = self.block(s.orelse + rest, k)
+                    b, tb = self.block(s.orelse + rest, k, live)
                 else:
-                    a, ta = self.block(s.body + rest, k)
+                    a, ta = self.block(s.body + rest, k, live)
                     b, tb = self.block(s.orelse, None)
                 return ("if", c, a, b), ta
             vs = [v for v in self.assigned([s])]
@@ -408,7 +574,8 @@ class Tr:
             # a variable first assigned on one path only is undefined afterwards: it is left out of the join,
             # so a later read of it fails closed ("unknown name")
             both = self.definitely(s.body) & self.definitely(s.orelse)
-            vs = [v for v in vs if v in self.env or v in both]
+            needed = self.live_in(rest, set(live))
+            vs = [v for v in vs if (v in self.env or v in both) and v in needed]
             if not vs:
                 raise Untranslatable(f"{self.name}: if-statement without effect {ast.dump(s)[:120]}")
             types = {}
@@ -421,13 +588,13 @@ class Tr:
                     return vals[0]
                 return ("tuple", [x for x, _ in vals]), ("tup", [t for _, t in vals])
             saved = dict(self.env)
-            a, _ = self.block(s.body, join)
+            a, _ = self.block(s.body, join, frozenset(vs))
             self.env = dict(saved)
-            b, _ = self.block(s.orelse, join)
+            b, _ = self.block(s.orelse, join, frozenset(vs))
             self.env = dict(saved)
             for v in vs:
                 self.env[v] = types[v]
-            body, tb = self.block(rest, k)
+            body, tb = self.block(rest, k, live)
             self.env = saved
             return ("let", vs, ("if", c, a, b), body), tb
         if isinstance(s, ast.For) and isinstance(s.target, ast.Name) and not s.orelse:
@@ -446,16 +613,19 @@ class Tr:
                 if len(vals) == 1:
                     return vals[0]
                 return ("tuple", [x for x, _ in vals]), ("tup", [t for _, t in vals])
-            stepbody, _ = self.block(s.body, join)
+            stepbody, _ = self.block(s.body, join, frozenset(accs))
             self.env = dict(saved)
             init = join()[0]
-            body, tb = self.block(rest, k)
+            body, tb = self.block(rest, k, live)
             self.env = saved
             return ("let", accs, ("fold", accs, s.target.id, stepbody, init, lst), body), tb
         raise Untranslatable(f"{self.name}: statement {ast.dump(s)[:200]}")
 
-    def translate(self):
-        body, ret = self.block(self.f.body, None)
+    def translate(self, end_return=None):
+        self.end_return = end_return
+        body, ret = self.block(self.f.body, None, frozenset(end_return or []))
+        if self.events is not None:
+            body = ("let", ["ev__"], ("nil",), body)
         return Func(self.name, self.params, ret, body)
 
 
@@ -537,6 +707,10 @@ def coq(ir, ind=2):
         return f"(if {coq(ir[1], ind)}\n{sp}then {coq(ir[2], ind + 2)}\n{sp}else {coq(ir[3], ind + 2)})"
     if k == "let":
         return f"(let {pat(ir[1])} := {coq(ir[2], ind + 2)} in\n{sp}{coq(ir[3], ind)})"
+    if k == "nil":
+        return "[]"
+    if k == "snoc":
+        return f"({coq(ir[1], ind)} ++ [{coq(ir[2], ind)}])%list"
     if k == "fold":
         accs, v, step, init, lst = ir[1], ir[2], ir[3], ir[4], ir[5]
         return (f"(fold_left (fun acc__ {v} => let {pat(accs)} := acc__ in {coq(step, ind + 2)})\n{sp}  "
@@ -637,6 +811,10 @@ def evaluate(ir, env, mod):
             for n, x in zip(ir[1], v):
                 e2[n] = x
         return evaluate(ir[3], e2, mod)
+    if k == "nil":
+        return []
+    if k == "snoc":
+        return ev(ir[1]) + [ev(ir[2])]
     if k == "fold":
         accs, var, step, init, lst = ir[1], ir[2], ir[3], ir[4], ir[5]
         acc = ev(init)
